@@ -11,6 +11,7 @@ structure JState where
   storage : List (Word × Word) := []
   kmap : List (Bytes × Word) := []
   work : Work := {}
+  transient : List (Word × Word) := []   -- EIP-1153 store of the executing contract (interp layer)
 
 def parsePairs (s : String) : Option (List (String × String)) :=
   if s = "." then some [] else
